@@ -182,6 +182,23 @@ Theorem C06_has_default_tiny_integer_kept : forall n q, Z.eqb (Qnum q) 0 = false
   has_default (Some (DInteger n)) (Some (JFlt q)) = PDefault (JFlt q).
 Proof. exact has_default_integer_nonzero. Qed.
 
+(* (8) every key of a non-empty map default is validated against the key entry -- whatever its kind: String, a
+   constrained-string newtype, a string ENUM, a native -- and every value against the value entry.  (A seeded change
+   validated keys only when the key type is a newtype, so keys constrained by an enumeration were no longer checked.) *)
+Theorem C06_map_keys_validated : forall re T f t kt vt m k,
+  get_det T t = Some (DMap kt vt) -> m <> [] ->
+  validate_value re T (S f) t (JObj m) = ROk k ->
+  forall key x, In (key, x) m ->
+    (exists k1, validate_value re T f kt (JStr key) = ROk k1) /\ (exists k2, validate_value re T f vt x = ROk k2).
+Proof. exact map_keys_validated. Qed.
+
+Example C06_map_keys_example :
+  validate_value re0 Tmk 3 3 (JObj [(u "cpu", JInt 1)]) = ROk KSpecific /\
+  validate_value re0 Tmk 3 3 (JObj [(u "disk", JInt 1)]) = RErr /\
+  validate_value re0 Tmk 3 3 (JObj [(u "cpu", JInt 1); (u "disk", JInt 2)]) = RErr /\
+  validate_value re0 Tmk 3 3 (JObj []) = ROk KIntrinsic.
+Proof. exact map_keys_example. Qed.
+
 (* the former refutation witnesses, now regression examples of the repaired behaviour:
    String x 5, Vec<u8> x [300], S3(maxLength 3) x "toolong", IEnum[1,2] x 7, NonZeroU32 x 0 are
    rejected; (i64,) x [3] and W{k, #[flatten] extra} x {"k":1} render to typed expressions *)
